@@ -1,6 +1,7 @@
 """C11 — constraint refinements can be declared in any order."""
 import itertools
 
+from ..common import safe_repr
 from .. import declcorr, runner
 from ..common import d42  # noqa: F401
 from d42 import schema
@@ -25,12 +26,14 @@ UNIVERSE = {
     "int": {"values": [None, 3, 0, 10 ** 30],
             "ops": [("min", (0,)), ("min", (3,)), ("min", (5,)), ("max", (0,)), ("max", (3,)), ("max", (5,)),
                     ("min", (2 ** 63 + 1,)), ("max", (2 ** 64,)), ("min", (10 ** 30,)), ("max", (10 ** 30,)), ("max", (-2 ** 70,))]},
-    "float": {"values": [None, 1.5, 0.0, 0.15, 3.14159],
+    "float": {"values": [None, 1.5, 0.0, 0.15, 3.14159, 0.3],
               "ops": [("min", (0.0,)), ("min", (1.5,)), ("min", (2.0,)), ("max", (0.0,)), ("max", (1.5,)), ("max", (2.0,)),
                       ("min", (0.15,)), ("min", (0.2,)), ("max", (0.1,)), ("max", (3.14,)), ("min", (3.1416,)),
                       ("precision", (1,)), ("precision", (2,)), ("precision", (0,)),
                       # beyond the generator's default range (+-2**63) and the float range
-                      ("min", (1e19,)), ("max", (2e19,)), ("min", (-2e19,)), ("max", (-1e19,)), ("max", (1e300,)), ("precision", (15,))]},
+                      ("min", (1e19,)), ("max", (2e19,)), ("min", (-2e19,)), ("max", (-1e19,)), ("max", (1e300,)), ("precision", (15,)),
+                      # bounds within the validator's tolerance of a value but on its wrong side (0.1 + 0.2 > 0.3)
+                      ("min", (0.1 + 0.2,)), ("max", (0.3 - 6e-17,)), ("min", (1.5 + 1e-12,))]},
     "str": {"values": [None, "ab", ""],
             "ops": [("len", (2,)), ("len", (0,)), ("len", (1, ...)), ("len", (3, ...)), ("len", (..., 2)), ("len", (..., 1)),
                     ("len", (1, 3)), ("len", (0, ...)), ("len", (..., 0)), ("len", (0, 0)), ("alphabet", ("ab",)), ("alphabet", ("a",)), ("alphabet", ("",)), ("contains", ("",)), ("len", (1, 1)), ("len", (2, ...)), ("contains", ("a",)), ("contains", ("z",)),
@@ -92,7 +95,7 @@ def run(ctx):
                     # order of such a set must be rejected alike
                     perms = list(itertools.permutations(combo))
                     outs = [outcome(facade, value, p) for p in perms]
-                    ctx.case((facade, repr(value), repr(combo)), True)
+                    ctx.case((facade, safe_repr(value), safe_repr(combo)), True)
                     ctx.count("permutations", len(perms))
                     kinds = {o[0] for o in outs}
                     bad = None
@@ -102,11 +105,11 @@ def run(ctx):
                         bad = "some orders are rejected and others accepted"
                     elif kinds == {"ok"}:
                         first = outs[0][1]
-                        if not all(o[1] == first and repr(o[1]) == repr(first) for o in outs[1:]):
+                        if not all(o[1] == first and safe_repr(o[1]) == safe_repr(first) for o in outs[1:]):
                             bad = "different orders yield different schemas"
                     if bad:
-                        ctx.violation(bad, facade=facade, value=repr(value), refinements=repr(combo),
-                                      outcomes=[(repr(p), o[0], repr(o[1])) for p, o in zip(perms, outs)][:6])
+                        ctx.violation(bad, facade=facade, value=safe_repr(value), refinements=safe_repr(combo),
+                                      outcomes=[(safe_repr(p), o[0], safe_repr(o[1])) for p, o in zip(perms, outs)][:6])
                     for p in perms[:2]:
                         ops = ([("call", (value,))] if value is not None else []) + list(p)
                         cases.append(declcorr.ChainCase(facade, ops))
@@ -119,7 +122,7 @@ def run(ctx):
     ctx.cov["corr_disagreements"] = len(dis)
     ctx.cov["exhaustive"] = True
     ctx.sample({"facade": "str", "value": "ab", "refinements": "[('len', (..., 2)), ('regex', ('a',))]",
-                "outcome": repr(outcome("str", "ab", [("len", (..., 2)), ("regex", ("a",))]))})
+                "outcome": safe_repr(outcome("str", "ab", [("len", (..., 2)), ("regex", ("a",))]))})
 
 
 def replay(path):
